@@ -37,7 +37,8 @@ PLANS = {
     'C14': {'jobs': [J('scope', W124, 3), J('selc', W124, 1), J('scope', [2, 4], 1, 'asan'), J('selc', [2], 1, 'asan')]},
     'C15': {'jobs': [J('cls', W124, 3), J('pan', [2], 2), J('cls', [2, 4], 1, 'asan')]},
     'C16': {'jobs': [J('sel', W124, 2), J('cq', W124, 2), J('cq', [2, 4], 1, 'asan'), S('cqrace', [2, 4], 2)]},
-    'C17': {'jobs': [J('io', W124, 2), J('tcp', W124, 1), J('dgram', W124, 1), J('io', [2], 1, 'asan'), J('tcp', [2], 1, 'asan'), S('iorace', [1, 2, 4], 2)]},
+    'C17': {'jobs': [J('io', W124, 2), J('tcp', W124, 1), J('dgram', W124, 1), J('io', [2], 1, 'asan'), J('tcp', [2], 1, 'asan'), J('iochurn', W124, 1), J('unixsrv', [2, 4], 1), S('iorace', [1, 2, 4], 2),
+                     J('tcp', [16], 1, thorough_only=True), J('iochurn', [16], 1, thorough_only=True), S('unixsrv', [16], 1, thorough_only=True)]},
     'C18': {'jobs': [J('iot', W124, 3), J('iocan', W124, 2), J('iot', [2], 1, 'asan')]},
     'C03': {'engine': 'q', 'jobs': [J('q', lane='q'), J('q', lane='qasan'), J('q', lane='qtsan')]},
     'C04': {'engine': 'q', 'jobs': [J('q', lane='q'), J('q', lane='qasan')]},
